@@ -948,3 +948,114 @@ Proof.
   intros Hp Hnm. apply (parse_of_keeps_witness (build x) nm (proj1 (build_inv x))).
   intros st s Hb. destruct (build_keeps_plain x w st s Hp Hb) as (w' & Hw & Hn'). exists w'. split; [exact Hw|congruence].
 Qed.
+
+(* ------------------------------------------------------------------------------------------ *)
+(* removing references never creates a short cycle: the exit conditions of the earlier loops    *)
+(* survive the later ones, so they all hold of the document the pre-pass returns                *)
+(* ------------------------------------------------------------------------------------------ *)
+Lemma find_map_comm {A} (S : A -> A) (p p' : A -> bool) l :
+  (forall x, p' (S x) = p x) -> find p' (map S l) = option_map S (find p l).
+Proof.
+  intro H. induction l as [|a r IH]; [reflexivity|]. cbn [map find]. rewrite H.
+  destruct (p a); [reflexivity|exact IH].
+Qed.
+
+Lemma lookup_set_none id k d nm : lookup (set_none id k d) nm = option_map (set_none id k) (lookup d nm).
+Proof.
+  unfold lookup. rewrite sflat_set_none, <- map_rev. apply find_map_comm.
+  intro x. rewrite set_none_name. reflexivity.
+Qed.
+
+Lemma attr_link_set_none_node id k0 k n v :
+  attr_link k (s_attrs (set_none id k0 n)) = Some v -> attr_link k (s_attrs n) = Some v.
+Proof.
+  rewrite set_none_attrs. destruct (Nat.eqb (s_id n) id); [apply attr_link_set_none|exact (fun H => H)].
+Qed.
+
+Lemma node_attr_set_none id k0 d k n l' :
+  node_attr (set_none id k0 d) k (set_none id k0 n) = Some l' ->
+  exists l, l' = set_none id k0 l /\ node_attr d k n = Some l.
+Proof.
+  unfold node_attr. destruct (attr_link k (s_attrs (set_none id k0 n))) as [nm|] eqn:E; [|discriminate].
+  apply attr_link_set_none_node in E. rewrite E, lookup_set_none.
+  destruct (lookup d nm) as [l|]; [|discriminate]. intros [= <-]. exists l. split; reflexivity.
+Qed.
+
+Lemma in_sflat_set_none id k x y' : In y' (sflat (set_none id k x)) -> exists y, y' = set_none id k y /\ In y (sflat x).
+Proof.
+  rewrite sflat_set_none. intro H. apply in_map_iff in H. destruct H as (y & <- & Hy). exists y. split; [reflexivity|exact Hy].
+Qed.
+
+Lemma no_short_link_set_none e k id k0 d : no_short_link_cycle e k d -> no_short_link_cycle e k (set_none id k0 d).
+Proof.
+  intros H node' child' link' Hnode Htag Hchild Hl.
+  apply in_sflat_set_none in Hnode. destruct Hnode as (node & -> & Hnode).
+  apply in_sflat_set_none in Hchild. destruct Hchild as (child & -> & Hchild).
+  apply node_attr_set_none in Hl. destruct Hl as (link & -> & Hl).
+  rewrite set_none_tag in Htag. rewrite !set_none_id.
+  destruct (H node child link Hnode Htag Hchild Hl) as [H1 H2]. split; [exact H1|].
+  intros n2' l2' Hn2 Hl2.
+  apply in_sflat_set_none in Hn2. destruct Hn2 as (n2 & -> & Hn2).
+  apply node_attr_set_none in Hl2. destruct Hl2 as (l2 & -> & Hl2).
+  rewrite set_none_id. exact (H2 n2 l2 Hn2 Hl2).
+Qed.
+
+Lemma no_short_pattern_set_none k id k0 d : no_short_pattern_cycle k d -> no_short_pattern_cycle k (set_none id k0 d).
+Proof.
+  intros H p' node' lid Hp Htag Hnode Hl.
+  apply in_sflat_set_none in Hp. destruct Hp as (p & -> & Hp).
+  apply in_sflat_set_none in Hnode. destruct Hnode as (node & -> & Hnode).
+  apply attr_link_set_none_node in Hl. rewrite set_none_tag in Htag. rewrite set_none_name.
+  destruct (H p node lid Hp Htag Hnode Hl) as [H1 H2]. split; [exact H1|].
+  intros ln' n2' l2 Hln Hn2 Hl2. rewrite lookup_set_none in Hln.
+  destruct (lookup d lid) as [ln|] eqn:E; [|discriminate]. injection Hln as <-.
+  apply in_sflat_set_none in Hn2. destruct Hn2 as (n2 & -> & Hn2).
+  apply attr_link_set_none_node in Hl2. exact (H2 ln n2 l2 eq_refl Hn2 Hl2).
+Qed.
+
+Lemma loop_doc_post_link e k d : no_short_link_cycle e k (loop_doc (find_recursive_link e k) k d).
+Proof.
+  unfold loop_doc. pose proof (run_loop_adequate (find_recursive_link e k) k d (find_link_sound e k)) as H.
+  destruct (run_loop (find_recursive_link e k) k d) as [[d' n] fin]. destruct H as (_ & _ & H). apply find_link_none, H.
+Qed.
+
+Lemma loop_doc_post_pattern k d : no_short_pattern_cycle k (loop_doc (find_recursive_pattern k) k d).
+Proof.
+  unfold loop_doc. pose proof (run_loop_adequate (find_recursive_pattern k) k d (find_pattern_sound k)) as H.
+  destruct (run_loop (find_recursive_pattern k) k d) as [[d' n] fin]. destruct H as (_ & _ & H). apply find_pattern_none, H.
+Qed.
+
+Definition prepass_post (d : snode) : Prop :=
+  no_short_pattern_cycle AFill d /\ no_short_pattern_cycle AStroke d /\
+  no_short_link_cycle TClipPath AClip d /\ no_short_link_cycle TMask AMask d /\ no_short_link_cycle TFilter AFilter d.
+
+Lemma prepass_establishes d : prepass_post (prepass d).
+Proof.
+  unfold prepass. change PREPASS with [PPatterns; PLinkClip; PLinkMask; PLinkFilter; PFeImage].
+  cbn [fold_left prepass_step]. change G_PRE_PAT_LOOPS with true. change G_PRE_LINK_LOOP with true. cbn iota.
+  set (d1 := loop_doc (find_recursive_pattern AFill) AFill d).
+  set (d2 := loop_doc (find_recursive_pattern AStroke) AStroke d1).
+  set (d3 := loop_doc (find_recursive_link TClipPath AClip) AClip d2).
+  set (d4 := loop_doc (find_recursive_link TMask AMask) AMask d3).
+  set (d5 := loop_doc (find_recursive_link TFilter AFilter) AFilter d4).
+  assert (Hk : forall (P : snode -> Prop), (forall id k x, P x -> P (set_none id k x)) ->
+               forall f k x, P x -> P (loop_doc f k x)) by (intros P HP f k x; apply loop_doc_preserves, HP).
+  assert (Hf : forall (P : snode -> Prop), (forall id k x, P x -> P (set_none id k x)) -> forall x, P x -> P (fix_fe_image x)).
+  { intros P HP x Hx. unfold fix_fe_image. destruct G_PRE_FEIMAGE; [|exact Hx]. apply fold_set_none_preserves; assumption. }
+  assert (A1 : no_short_pattern_cycle AFill d1) by apply loop_doc_post_pattern.
+  assert (A2 : no_short_pattern_cycle AStroke d2) by apply loop_doc_post_pattern.
+  assert (A3 : no_short_link_cycle TClipPath AClip d3) by apply loop_doc_post_link.
+  assert (A4 : no_short_link_cycle TMask AMask d4) by apply loop_doc_post_link.
+  assert (A5 : no_short_link_cycle TFilter AFilter d5) by apply loop_doc_post_link.
+  pose proof (fun id k x => no_short_pattern_set_none AFill id k x) as P1.
+  pose proof (fun id k x => no_short_pattern_set_none AStroke id k x) as P2.
+  pose proof (fun id k x => no_short_link_set_none TClipPath AClip id k x) as P3.
+  pose proof (fun id k x => no_short_link_set_none TMask AMask id k x) as P4.
+  pose proof (fun id k x => no_short_link_set_none TFilter AFilter id k x) as P5.
+  split; [|split; [|split; [|split]]].
+  - apply (Hf (no_short_pattern_cycle AFill) P1). fold d5. do 4 apply (Hk (no_short_pattern_cycle AFill) P1). exact A1.
+  - apply (Hf (no_short_pattern_cycle AStroke) P2). fold d5. do 3 apply (Hk (no_short_pattern_cycle AStroke) P2). exact A2.
+  - apply (Hf (no_short_link_cycle TClipPath AClip) P3). fold d5. do 2 apply (Hk (no_short_link_cycle TClipPath AClip) P3). exact A3.
+  - apply (Hf (no_short_link_cycle TMask AMask) P4). fold d5. apply (Hk (no_short_link_cycle TMask AMask) P4). exact A4.
+  - apply (Hf (no_short_link_cycle TFilter AFilter) P5). exact A5.
+Qed.
